@@ -33,6 +33,7 @@ class Sched:
     self.timeout_steps = timeout_steps            # thread name -> list of booleans for successive 'wake' stops
     self.wake_no = {k: 0 for k in expected}
     self.free_run = False
+    self.lock_registry = []           # every controlled lock / condition (to know what the running thread holds)
     self.progress = {}
 
   def me(self):
@@ -60,6 +61,9 @@ class Sched:
     if os.environ.get('VF_DEBUG_REPLAY'):
       sys.stderr.write(f'POINT {name} {(kind, res, line)} expecting {exp[i] if i < len(exp) else None}\n')
     stop_here = (not self.free_run) and i < len(exp) and exp[i][0] == kind and exp[i][1] == res and exp[i][2] == line
+    if stop_here and len(exp[i]) > 3 and exp[i][3]:
+      held = frozenset(l.name for l in self.lock_registry if l.owner == name)
+      stop_here = any(not (ls & held) for (_w, ls) in exp[i][3])       # unprotected against at least one conflicting access
     if stop_here:
       self.pos[name] = i + 1
     while stop_here or (can_proceed is not None and not can_proceed()):
@@ -82,6 +86,7 @@ class CtlRLock:
   def __init__(self, sched, name):
     self.s, self.name = sched, name
     self.owner, self.count = None, 0
+    sched.lock_registry.append(self)
 
   def acquire(self, blocking=True, timeout=-1):
     me = self.s.me()
@@ -274,10 +279,17 @@ def stop_key(enc, sysm, tid, pc):
       return ('qempty', e[1], ins['line'])
     if isinstance(e, tuple) and e[0] == 'locked':
       return ('locked', e[1], ins['line'])
+    # the same source line can be reached with and without the protecting lock (e.g. the enqueue_done property is read inside
+    # get_nowait under the state lock and from get_batch without it): only the unprotected access is a pre-emption point.
+    # The key carries the conflicting accesses of the other threads (is_write, static lockset); at run time an access is a
+    # stop only if, with the locks the thread really holds, it is still unprotected against one of them.
+    def conflicts(r, is_write):
+      lst = getattr(enc, 'acc', {}).get(enc.canon(r), [])
+      return tuple((w2, l2) for (t2, pc2, w2, l2) in lst if t2 != tid and (w2 or is_write))
     if dst[0] == 'g':
-      return ('wr', f'{dst[1]}.{enc.canon(("g", dst[1], dst[2]))[2]}', ins['line'])
+      return ('wr', f'{dst[1]}.{enc.canon(("g", dst[1], dst[2]))[2]}', ins['line'], conflicts(('g', dst[1], dst[2]), True))
     if isinstance(e, tuple) and e[0] == 'g':
-      return ('rd', f'{e[1]}.{enc.canon(e)[2]}', ins['line'])
+      return ('rd', f'{e[1]}.{enc.canon(e)[2]}', ins['line'], conflicts(e, False))
   if op == 'retadd':
     return ('rd', f"{ins['obj']}.{ins['field']}", ins['line'])     # self._returned.extend(..): attribute load, then in-place extend
   if op == 'join':
@@ -357,7 +369,7 @@ def run_schedule(sysm, enc, trace, make_threads, run_after=True, settle_s=2.0):
   for step, (name, key) in enumerate(order):
     if sched.state[name] != 'stopped':
       raise Mismatch(f'step {step}: thread {name} is {sched.state[name]} (at {sched.where[name]}), model expects it stopped at {key}')
-    if key[0] != 'start' and sched.where[name] != key:
+    if key[0] != 'start' and tuple(sched.where[name] or ())[:3] != tuple(key)[:3]:
       raise Mismatch(f'step {step}: thread {name} is stopped at {sched.where[name]}, model expects {key}')
     sched.state[name] = 'running'
     sched.go[name].set()
